@@ -135,6 +135,13 @@ class Runtime:
             cls._verif_wrapped = True
         Runtime.current = self
         self.last_built = None
+        # everything imported so far lives forever: keep it out of the collections that
+        # World.close_session triggers (worlds are created after this point and stay collectable)
+        import hippolyzer.lib.proxy.http_event_manager  # noqa: F401
+        import hippolyzer.lib.proxy.sessions  # noqa: F401
+        import mitmproxy.test.tflow  # noqa: F401
+        gc.collect()
+        gc.freeze()
 
     async def start_pump(self):
         if self.pump_task is None:
@@ -350,6 +357,8 @@ class World:
         del sess
         for _ in range(3):
             gc.collect()
+            if all(r() is None for r in refs):
+                break
         if any(r() is not None for r in refs):
             raise common.MachineryError("closed session/region objects are still referenced; cannot exercise SessionCloses")
 
@@ -1011,7 +1020,7 @@ async def _random_run(seed, n_flows, n_addons=3):
             s_closed = rng.choice((1, 2))
             world.close_session(s_closed)
             for r2 in recs:     # every flow of the world lives through it
-                r2.events.append({"ev": "SessionCloses", "s": s_closed, "mf": _mf(r2) if r2.fd.main is not None else None})
+                r2.events.append({"ev": "SessionCloses", "s": s_closed, "mf": _mf(r2) if r2.fd.main is not None else []})
         elif what == "ireq":
             browser, hdr = rng.random() < 0.25, rng.random() < 0.3
             fd.intercept_request(browser, hdr)
